@@ -9,7 +9,7 @@ import (
 
 // Payload lengths: both sides of the 1->2 byte (127|128) and 2->3 byte (16383|16384)
 // boundary of the varint length prefix. The tier bound "lens" says how many are used.
-var verifFrameLens = []int{0, 1, 127, 128, 129, 2, 126, 130, 255, 256, 300, 16383, 16384}
+var verifFrameLens = []int{0, 1, 127, 128, 129, 2, 126, 130, 255, 256, 300, 16384, 16383}
 
 // verifFramePayload: a payload of n bytes; the first, the last and the middle byte are
 // arbitrary (sym), the others a fixed non-constant pattern.
